@@ -404,6 +404,224 @@ func c20Run(cfg c20Config, rnd *rand.Rand) (why string, detail map[string]any) {
 	return "", detail
 }
 
+// c20RealSink is a loopback listener that keeps the connections it accepted, so that it can
+// close or reset them on demand; every byte is recorded per connection.
+type c20RealSink struct {
+	ln    net.Listener
+	mu    sync.Mutex
+	bufs  []*bytes.Buffer
+	conns []net.Conn
+}
+
+func newC20RealSink() (*c20RealSink, error) {
+	ln, err := net.Listen("tcp", "127.0.0.1:0")
+	if err != nil {
+		return nil, err
+	}
+	s := &c20RealSink{ln: ln}
+	go func() {
+		for {
+			c, err := ln.Accept()
+			if err != nil {
+				return
+			}
+			buf := &bytes.Buffer{}
+			s.mu.Lock()
+			s.bufs = append(s.bufs, buf)
+			s.conns = append(s.conns, c)
+			s.mu.Unlock()
+			go func() {
+				defer c.Close()
+				b := make([]byte, 65536)
+				for {
+					n, err := c.Read(b)
+					s.mu.Lock()
+					buf.Write(b[:n])
+					s.mu.Unlock()
+					if err != nil {
+						return
+					}
+				}
+			}()
+		}
+	}()
+	return s, nil
+}
+
+func (s *c20RealSink) addr() string { return s.ln.Addr().String() }
+func (s *c20RealSink) snapshot() [][]byte {
+	s.mu.Lock()
+	defer s.mu.Unlock()
+	r := make([][]byte, len(s.bufs))
+	for i, b := range s.bufs {
+		r[i] = append([]byte{}, b.Bytes()...)
+	}
+	return r
+}
+func (s *c20RealSink) dropConns(reset bool) {
+	s.mu.Lock()
+	cs := append([]net.Conn{}, s.conns...)
+	s.mu.Unlock()
+	for _, c := range cs {
+		if reset {
+			c.(*net.TCPConn).SetLinger(0)
+		}
+		c.Close()
+	}
+}
+func (s *c20RealSink) close() { s.ln.Close(); s.dropConns(false) }
+
+// c20LocalPortRun: two TCP backends of one listener (one configured local address for both,
+// with or without a fixed local port), real sockets throughout. Message 0 goes to backend A,
+// message 1 to backend B; then A's cached connection goes stale for the given cause; messages
+// 2 and 3 go to A. Every send must succeed (a healthy destination is listening all the time),
+// each message must be on exactly one connection of its destination, message 3 must use the
+// connection message 2 opened.
+func c20LocalPortRun(cause string, fixed bool, rnd *rand.Rand) (why string, detail map[string]any) {
+	sa, err := newC20RealSink()
+	if err != nil {
+		return "", nil
+	}
+	defer sa.close()
+	sb, err := newC20RealSink()
+	if err != nil {
+		return "", nil
+	}
+	defer sb.close()
+	local := "127.0.0.1:0"
+	if fixed {
+		local = net.JoinHostPort("127.0.0.1", strconv.Itoa(c20FreePort()))
+	}
+	// what the proxy starts on every connection it opens: a reader that closes the connection
+	// when the peer has closed or reset it
+	var rmu sync.Mutex
+	readersDone := 0
+	onEst := func(c net.Conn) {
+		go func() {
+			b := make([]byte, 4096)
+			for {
+				if _, err := c.Read(b); err != nil {
+					c.Close()
+					rmu.Lock()
+					readersDone++
+					rmu.Unlock()
+					return
+				}
+			}
+		}()
+	}
+	beA, _ := NewTCPBackend(local, sa.addr(), onEst)
+	beB, _ := NewTCPBackend(local, sb.addr(), onEst)
+	detail = map[string]any{"configured_local_address_of_the_backends": local}
+	wire := make([][]byte, 4)
+	msgs := make([]*Message, 4)
+	for i := range msgs {
+		msgs[i], wire[i] = c20Message(i, 200, rnd)
+	}
+	errs := make([]string, 4)
+	send := func(i int, be *TCPBackend) string {
+		done := make(chan error, 1)
+		var pan string
+		go func() {
+			var e error
+			pan = vfRecover("Send", func() { e = be.Send(msgs[i]) })
+			done <- e
+		}()
+		select {
+		case e := <-done:
+			if pan != "" {
+				return pan
+			}
+			if e != nil {
+				errs[i] = e.Error()
+			}
+		case <-time.After(20 * time.Second):
+			return fmt.Sprintf("send %d did not return within 20 s", i)
+		}
+		return ""
+	}
+	waitFor := func(s *c20RealSink, want [][]byte) [][]byte {
+		deadline := time.Now().Add(5 * time.Second)
+		for {
+			got := s.snapshot()
+			ok := len(got) >= len(want)
+			for i := 0; ok && i < len(want); i++ {
+				ok = len(got[i]) >= len(want[i])
+			}
+			if ok || time.Now().After(deadline) {
+				return got
+			}
+			time.Sleep(time.Millisecond)
+		}
+	}
+	if w := send(0, beA); w != "" {
+		return w, detail
+	}
+	if w := send(1, beB); w != "" {
+		return w, detail
+	}
+	waitFor(sa, [][]byte{wire[0]})
+	waitFor(sb, [][]byte{wire[1]})
+	switch cause {
+	case "closed-by-proxy":
+		beA.Close()
+	case "closed-by-destination", "reset-by-destination":
+		sa.dropConns(cause == "reset-by-destination")
+		// until the proxy's reader on that connection has seen it
+		deadline := time.Now().Add(5 * time.Second)
+		for {
+			rmu.Lock()
+			d := readersDone
+			rmu.Unlock()
+			if d > 0 || time.Now().After(deadline) {
+				break
+			}
+			time.Sleep(time.Millisecond)
+		}
+	}
+	if w := send(2, beA); w != "" {
+		return w, detail
+	}
+	if w := send(3, beA); w != "" {
+		return w, detail
+	}
+	detail["send_results"] = errs
+	wantA := [][]byte{wire[0], append(append([]byte{}, wire[2]...), wire[3]...)}
+	wantB := [][]byte{wire[1]}
+	gotA := waitFor(sa, wantA)
+	gotB := waitFor(sb, wantB)
+	detail["connections_accepted_by_destination_A"] = len(gotA)
+	detail["connections_accepted_by_destination_B"] = len(gotB)
+	for i, e := range errs {
+		if e != "" {
+			return fmt.Sprintf("send %d failed (%s) although its destination accepts connections", i, e), detail
+		}
+	}
+	eq := func(got, want [][]byte) bool {
+		if len(got) != len(want) {
+			return false
+		}
+		for i := range got {
+			if !bytes.Equal(got[i], want[i]) {
+				return false
+			}
+		}
+		return true
+	}
+	if !eq(gotA, wantA) {
+		lens := []int{}
+		for _, g := range gotA {
+			lens = append(lens, len(g))
+		}
+		detail["bytes_per_connection_at_A"] = lens
+		return "destination A did not receive message 0 on the first connection and messages 2, 3 on one fresh connection", detail
+	}
+	if !eq(gotB, wantB) {
+		return "destination B did not receive exactly message 1 on one connection", detail
+	}
+	return "", detail
+}
+
 func TestVerifC20(t *testing.T) {
 	run := ev.New("C20", "fault_enumeration",
 		"every fault pattern {cached connection: absent, healthy, failing on write k (clean or after a partial write)} x {reconnectable path: absent, fresh, stale-once, refusing, accept-then-reset, accepted-but-closed-before-the-write} x 1-3 messages x message sizes, "+
@@ -501,6 +719,30 @@ func TestVerifC20(t *testing.T) {
 		}
 		lwg.Wait()
 		n += len(late)
+	}
+	// TCP backends of a listener that is configured with a fixed local port for its backends
+	// (backend-local-port): the cached connection is a real socket and goes stale because the
+	// proxy itself closed it (what RemoveBackend does while a dialog still holds the backend
+	// object), or because the destination closed / reset it; two backends of the same listener
+	// share the configured local address
+	{
+		for rep := 0; rep < ev.Pick(2, 10); rep++ {
+			for _, cause := range []string{"closed-by-proxy", "closed-by-destination", "reset-by-destination"} {
+				for _, fixed := range []bool{false, true} {
+					cfgName := fmt.Sprintf("backend|real-cached-connection|%s|fixed-local-port=%v", cause, fixed)
+					why, detail := c20LocalPortRun(cause, fixed, rnd)
+					if why != "" {
+						if why2, _ := c20LocalPortRun(cause, fixed, rnd); why2 != "" {
+							run.Violation("backend with a real cached connection: "+why, map[string]any{"stale_because": cause, "backend_local_port_configured": fixed, "observed": detail})
+						} else {
+							run.Inconclusive(1)
+						}
+					}
+					n++
+					run.Eval(cfgName)
+				}
+			}
+		}
 	}
 	run.Observe("configurations_executed", n)
 	run.Exhaustive(true)
